@@ -27,6 +27,10 @@ type c09Params struct {
 	// Trailer: bytes that cannot be decoded as a message follow the stimulus in
 	// the same write (only for stimuli that end the connection)
 	Trailer string // "" | type5 | badopen | shortnotif
+	// Pipe: the stimulus is glued behind the message that moves the connection into
+	// the state (so it is read while the FSM is still busy with that message) and the
+	// remote closes at once afterwards
+	Pipe bool
 }
 
 func c09World(t *testing.T, p c09Params) rt.Result {
@@ -38,6 +42,12 @@ func c09World(t *testing.T, p c09Params) rt.Result {
 		v.apply(&ps, p.Seed)
 		if p.Dir == "in" && !p.Active {
 			ps.Passive = true
+		}
+		target := p.State
+		pipe := p.Pipe && p.State != stOpenSent && p.Trailer == "" && (p.Stim == "OPEN" || p.Stim == "UPDATE" || p.Stim == "KEEPALIVE" || p.Stim == "NOTIFICATION") &&
+			!((p.State == stOpenConfirm && p.Stim == "KEEPALIVE") || (p.State == stEstablished && (p.Stim == "KEEPALIVE" || p.Stim == "UPDATE")))
+		if pipe {
+			p.State = map[string]string{stOpenConfirm: stOpenSent, stEstablished: stOpenConfirm}[target]
 		}
 		var s *sess
 		if p.Reuse && p.Dir == "out" {
@@ -52,6 +62,16 @@ func c09World(t *testing.T, p c09Params) rt.Result {
 		before := len(rc.Msgs())
 		_, _, ss := s.mon.Snapshot()
 		sessBefore := len(ss)
+		var pipePrefix []byte
+		if pipe {
+			if target == stOpenConfirm {
+				pipePrefix = wire.Msg(wire.TypeOpen, rc.StdOpen(ps.RemoteAS, v.RemoteHold, remoteIDu).Body())
+			} else {
+				pipePrefix = wire.Keepalive()
+				sessBefore++ // the glued KEEPALIVE establishes the session first
+			}
+			p.State = target
+		}
 		wasEst := p.State == stEstablished
 
 		var stim []byte
@@ -91,13 +111,32 @@ func c09World(t *testing.T, p c09Params) rt.Result {
 		case "RST":
 			rc.Reset()
 		default:
-			rc.W.Log.Add("tx", ps.Addr.String(), rc.ID, p.Stim, "")
-			rc.SendCuts(stim, cuts(r, len(stim)), time.Nanosecond)
+			rc.W.Log.Add("tx", ps.Addr.String(), rc.ID, p.Stim, fmt.Sprintf("pipelined=%v", pipe))
+			if pipe {
+				rc.Pair.WriteAfterPeerCloseOK = true
+				rc.Send(append(pipePrefix, stim...))
+				rc.Close()
+			} else {
+				rc.SendCuts(stim, cuts(r, len(stim)), time.Nanosecond)
+			}
 		}
 		w.Settle()
+		for i := 0; i < 10 && pipe && rc.Pair.Closed(0) == 0; i++ {
+			w.Settle() // slow callbacks
+		}
 
 		got := rc.Msgs()[before:]
 		eof, _ := rc.EOF()
+		if pipe {
+			eof = rc.Pair.Closed(0) > 0
+			if target == stOpenConfirm { // the reply to the glued OPEN comes first
+				if len(got) == 0 || got[0].Type != wire.TypeKeepalive {
+					w.Violate("[%s/%s/%s pipelined] the OPEN glued in front was not answered by KEEPALIVE: %s", p.Dir, p.State, p.Stim, typesOf(got))
+				} else {
+					got = got[1:]
+				}
+			}
+		}
 		legal := (p.State == stOpenSent && p.Stim == "OPEN") ||
 			(p.State == stOpenConfirm && p.Stim == "KEEPALIVE") ||
 			(p.State == stEstablished && (p.Stim == "KEEPALIVE" || p.Stim == "UPDATE"))
@@ -195,6 +234,7 @@ func TestC09(t *testing.T) {
 					}
 					p.Reuse = dir == "out" && k%3 == 0
 					p.Trailer = []string{"", "", "type5", "badopen", "shortnotif"}[k%5]
+					p.Pipe = k%4 == 1
 					i := idx
 					runCase(t, "table", i, p, func(t *testing.T) rt.Result { return c09World(t, p) })
 					idx++
@@ -228,6 +268,7 @@ func TestC09(t *testing.T) {
 		p.Active = r.IntN(2) == 0
 		p.Reuse = p.Dir == "out" && r.IntN(3) == 0
 		p.Trailer = []string{"", "", "type5", "badopen", "shortnotif"}[r.IntN(5)]
+		p.Pipe = r.IntN(4) == 0
 		runCase(t, "notif", i, p, func(t *testing.T) rt.Result { return c09World(t, p) })
 	}
 }
